@@ -118,12 +118,16 @@ Proof.
   - intros [n t] [n' t'] [n'' t'']. apply (ok_trans _ L (n, t) (n', t') (n'', t'')).
 Qed.
 
+Lemma tag_eqb_eq a b : tag_eqb a b = true <-> a = b.
+Proof.
+  destruct a as [k v], b as [k' v']. unfold tag_eqb; cbn.
+  rewrite andb_true_iff, !String.eqb_eq. split; [intros [-> ->]; reflexivity | intro H; inversion H; auto].
+Qed.
 Lemma series_eqb_eq s1 s2 : series_eqb s1 s2 = true <-> s1 = s2.
 Proof.
-  unfold series_eqb. split.
-  - destruct (series_cmp s1 s2) eqn:E; try discriminate. intros _.
-    apply (ok_eq _ series_cmp_order). exact E.
-  - intros ->. rewrite (ok_refl _ series_cmp_order). reflexivity.
+  destruct s1 as [n t], s2 as [n' t']. unfold series_eqb, tags_eqb; cbn.
+  rewrite andb_true_iff, String.eqb_eq, (list_eqb_spec tag_eqb tag_eqb_eq).
+  split; [intros [-> ->]; reflexivity | intro H; inversion H; auto].
 Qed.
 
 Lemma sf_cmp_order : order_ok sf_cmp.
